@@ -8,3 +8,7 @@ mod tables;
 mod errors;
 #[cfg(kani)]
 mod readers;
+#[cfg(kani)]
+mod private;
+#[cfg(kani)]
+mod container;
